@@ -37,6 +37,8 @@ def oracle_serial(r: dict) -> list[str]:
                 done, total = map(int, g['sd'][0].split('/'))
                 if subs_before_close is not None and done < subs_before_close:
                     msgs.append(f'close() returned but only {done} of the {subs_before_close} subscriptions handed out earlier have terminated')
+    if r['info'].get('lazy_not_terminated'):
+        msgs.append(f"subscription iterators handed out before close() and first advanced after it never terminate: {r['info']['lazy_not_terminated']}")
     if r['info'].get('close_error'):
         msgs.append(f'close() at the end of the history failed: {r["info"]["close_error"]}')
     if closed_called and not close_returned and 'close' not in r['info'].get('blocked_at_end', []):
